@@ -1,6 +1,6 @@
 /-
 C02: the reading side (Model/ParserIO.lean) for **arbitrary byte streams**: bufio's fill loop,
-`readRune` with its raw-byte fallback, `print`'s look-ahead (no fallback), for any split into
+`readRune` with its raw-byte fallback, `print`'s look-ahead (stops in front of an invalid byte), for any split into
 reads and any cluster oracle.  The reads disappear: what is delivered is a function of the units
 of the stream (`ParserUtf8.units`) — except for *how many* units a Print takes.
 -/
@@ -112,26 +112,45 @@ theorem readRune_spec (rd : Rd) :
 
 /-! ### print's look-ahead -/
 
-/-- `print`'s loop, whatever the reads and the oracle: it appends the `look` reading (U+FFFD for an
-    invalid byte: no fallback here) of the next `k` units and consumes exactly those; it never
-    takes more than the oracle's cluster length allows, and it stops short of that only when the
-    buffer is empty (a read boundary, or the end of the stream). -/
+theorem lookahead_flag : Gen.ParserTable.lookaheadStopsAtInvalid = true := by decide
+
+/-- The first unit is invalid iff `utf8.DecodeRune` reports (U+FFFD, 1). -/
+theorem unit1_inv (b : Nat) (t : List Nat) :
+    (unit1 (b :: t)).inv = true ↔ ((decodeRune (b :: t)).1 = runeError ∧ (decodeRune (b :: t)).2 = 1) := by
+  unfold unit1
+  split
+  · rename_i h; simp [h.1, h.2]
+  · rename_i h; simp only [Bool.false_eq_true, false_iff]; exact h
+
+theorem unit1_raw_valid (b : Nat) (t : List Nat) (h : (unit1 (b :: t)).inv = false) :
+    (unit1 (b :: t)).raw = (decodeRune (b :: t)).1 := by
+  have := (unit1_look b t).1
+  simp only [U.look, h, Bool.false_eq_true, if_false] at this
+  exact this
+
+/-- `print`'s loop, whatever the reads and the oracle: it appends the next `k` units — all of them
+    well-formed scalars, each as itself — and consumes exactly those; it never takes more than the
+    oracle's cluster length allows, and it stops short of that only when the buffer is empty (a
+    read boundary, or the end of the stream) or in front of an invalid byte, which it leaves to
+    `readRune`. -/
 theorem printLoop_spec (cl : Nat) (fuel : Nat) (rd : Rd) (acc : List Nat) :
     ∃ us : List U,
-      (printLoop cl fuel rd acc).1 = acc ++ us.map U.look ∧
+      (printLoop cl fuel rd acc).1 = acc ++ us.map U.raw ∧
       units (bytesOf rd) = us ++ units (bytesOf (printLoop cl fuel rd acc).2) ∧
       bytesOf (printLoop cl fuel rd acc).2 = (bytesOf rd).drop (ulen us) ∧
       ulen us ≤ (bytesOf rd).length ∧ us.length ≤ ulen us ∧
       (printLoop cl fuel rd acc).2.pos = rd.pos + ulen us ∧
       (us ≠ [] → acc.length + us.length ≤ cl) ∧
-      (cl ≤ acc.length + us.length ∨ (printLoop cl fuel rd acc).2.buf = [] ∨ fuel ≤ us.length) ∧
-      (∃ k, (printLoop cl fuel rd acc).2.chunks = rd.chunks.drop k) := by
+      (cl ≤ acc.length + us.length ∨ (printLoop cl fuel rd acc).2.buf = [] ∨ fuel ≤ us.length ∨
+        (∃ u rest, units (bytesOf (printLoop cl fuel rd acc).2) = u :: rest ∧ u.inv = true)) ∧
+      (∃ k, (printLoop cl fuel rd acc).2.chunks = rd.chunks.drop k) ∧
+      (∀ u ∈ us, u.inv = false) := by
   induction fuel generalizing rd acc with
   | zero =>
     refine ⟨[], ?_⟩
     simp only [printLoop, List.map_nil, List.append_nil, List.nil_append, ulen, List.sum_nil, List.drop_zero,
       Nat.zero_le, Nat.add_zero, List.length_nil, ne_eq, not_true_eq_false, false_implies, true_and]
-    exact ⟨Or.inr (Or.inr trivial), ⟨0, by simp⟩⟩
+    exact ⟨Or.inr (Or.inr (Or.inl trivial)), ⟨0, by simp⟩, by simp⟩
   | succ n ih =>
     simp only [printLoop]
     cases hb : rd.buf with
@@ -139,59 +158,86 @@ theorem printLoop_spec (cl : Nat) (fuel : Nat) (rd : Rd) (acc : List Nat) :
       refine ⟨[], ?_⟩
       simp only [List.isEmpty_nil, if_true, List.map_nil, List.append_nil, List.nil_append, ulen, List.sum_nil,
         List.drop_zero, Nat.zero_le, Nat.add_zero, List.length_nil, ne_eq, not_true_eq_false, false_implies, true_and]
-      exact ⟨Or.inr (Or.inl hb), ⟨0, by simp⟩⟩
+      exact ⟨Or.inr (Or.inl hb), ⟨0, by simp⟩, by simp⟩
     | cons b0 brest =>
       obtain ⟨h1, h2, h3, h4, ⟨x, h5⟩, ⟨k0, h6⟩⟩ := fill_spec rd
-      simp only [List.isEmpty_cons, Bool.false_eq_true, if_false]
+      simp only [List.isEmpty_cons, Bool.false_eq_true, if_false, lookahead_flag, Bool.true_and]
       have hbytes : bytesOf rd = b0 :: (brest ++ rd.chunks.flatten) := by simp [bytesOf, hb]
       generalize htl : brest ++ rd.chunks.flatten = t at hbytes
       have hlk := unit1_look b0 t
       have hus := unit1_sz b0 t
-      by_cases hcl : acc.length + 1 > cl
-      · simp only [hcl, if_true]
+      have hd : decodeRune rd.fill.buf = decodeRune (b0 :: t) := by rw [h3, hbytes]
+      by_cases hinv : (decodeRune (b0 :: t)).1 = runeError ∧ (decodeRune (b0 :: t)).2 = 1
+      · -- invalid byte: leave it
+        have hc : (decide ((decodeRune rd.fill.buf).1 = runeError) && decide ((decodeRune rd.fill.buf).2 = 1)) = true := by
+          rw [hd]; simp [hinv.1, hinv.2]
+        simp only [hc, if_true]
         refine ⟨[], ?_⟩
         simp only [List.map_nil, List.append_nil, List.nil_append, ulen, List.sum_nil, List.drop_zero, Nat.zero_le,
           Nat.add_zero, List.length_nil, ne_eq, not_true_eq_false, false_implies, true_and, h1, h2]
-        exact ⟨Or.inl (by omega), ⟨k0, h6⟩⟩
-      · simp only [hcl, if_false]
-        have hfb : rd.fill.buf = b0 :: (brest ++ x) := by rw [h5, hb]; rfl
-        have hd : decodeRune rd.fill.buf = decodeRune (b0 :: t) := by rw [h3, hbytes]
-        have hsz := decodeRune_sz b0 (brest ++ x)
-        rw [← hfb, hd] at hsz
-        have hcons : bytesOf (rd.fill.consume (decodeRune (b0 :: t)).2) = (b0 :: t).drop (unit1 (b0 :: t)).sz := by
-          rw [bytesOf_consume _ _ hsz.2.1, h1, hbytes, hlk.2]
-        obtain ⟨us, g1, g2, g3, g4, g5, g6, g7, g8, ⟨k1, g9⟩⟩ :=
-          ih (rd.fill.consume (decodeRune rd.fill.buf).2) (acc ++ [(decodeRune rd.fill.buf).1])
-        rw [hd] at g1 g2 g3 g4 g6 g7 g8 g9 ⊢
-        rw [hcons] at g2 g3 g4
-        refine ⟨unit1 (b0 :: t) :: us, ?_, ?_, ?_, ?_, ?_, ?_, ?_, ?_, ?_⟩
-        · rw [g1, ← hlk.1]; simp
-        · rw [hbytes, units_cons, g2]; rfl
-        · rw [g3, hbytes]
-          simp only [ulen, List.map_cons, List.sum_cons]
-          rw [List.drop_drop]
-        · simp only [ulen, List.map_cons, List.sum_cons, hbytes] at g4 ⊢
-          simp only [List.length_drop] at g4
-          simp only [List.length_cons] at g4 ⊢
-          omega
-        · simp only [ulen, List.map_cons, List.sum_cons, List.length_cons] at g5 ⊢
-          omega
-        · rw [g6]
-          simp only [Rd.consume, h2, ulen, List.map_cons, List.sum_cons, hlk.2]
-          omega
-        · intro _
-          by_cases hne : us = []
-          · subst hne; simp only [List.length_cons, List.length_nil]; omega
-          · have := g7 hne
-            simp only [List.length_append, List.length_cons, List.length_nil] at this ⊢
+        refine ⟨Or.inr (Or.inr (Or.inr ⟨unit1 (b0 :: t), units ((b0 :: t).drop (unit1 (b0 :: t)).sz), ?_,
+          (unit1_inv b0 t).mpr hinv⟩)), ⟨k0, h6⟩, by simp⟩
+        rw [hbytes, units_cons]
+      · have hc : (decide ((decodeRune rd.fill.buf).1 = runeError) && decide ((decodeRune rd.fill.buf).2 = 1)) = false := by
+          rw [hd]
+          simp only [Bool.and_eq_false_iff, decide_eq_false_iff_not]
+          by_cases h : (decodeRune (b0 :: t)).1 = runeError
+          · exact Or.inr (fun h' => hinv ⟨h, h'⟩)
+          · exact Or.inl h
+        have hval : (unit1 (b0 :: t)).inv = false := by
+          cases hv : (unit1 (b0 :: t)).inv with
+          | false => rfl
+          | true => exact absurd ((unit1_inv b0 t).mp hv) hinv
+        simp only [hc, Bool.false_eq_true, if_false]
+        by_cases hcl : acc.length + 1 > cl
+        · simp only [hcl, if_true]
+          refine ⟨[], ?_⟩
+          simp only [List.map_nil, List.append_nil, List.nil_append, ulen, List.sum_nil, List.drop_zero, Nat.zero_le,
+            Nat.add_zero, List.length_nil, ne_eq, not_true_eq_false, false_implies, true_and, h1, h2]
+          exact ⟨Or.inl (by omega), ⟨k0, h6⟩, by simp⟩
+        · simp only [hcl, if_false]
+          have hfb : rd.fill.buf = b0 :: (brest ++ x) := by rw [h5, hb]; rfl
+          have hsz := decodeRune_sz b0 (brest ++ x)
+          rw [← hfb, hd] at hsz
+          have hcons : bytesOf (rd.fill.consume (decodeRune (b0 :: t)).2) = (b0 :: t).drop (unit1 (b0 :: t)).sz := by
+            rw [bytesOf_consume _ _ hsz.2.1, h1, hbytes, hlk.2]
+          obtain ⟨us, g1, g2, g3, g4, g5, g6, g7, g8, ⟨k1, g9⟩, g10⟩ :=
+            ih (rd.fill.consume (decodeRune rd.fill.buf).2) (acc ++ [(decodeRune rd.fill.buf).1])
+          rw [hd] at g1 g2 g3 g4 g6 g7 g8 g9 ⊢
+          rw [hcons] at g2 g3 g4
+          refine ⟨unit1 (b0 :: t) :: us, ?_, ?_, ?_, ?_, ?_, ?_, ?_, ?_, ?_, ?_⟩
+          · rw [g1, ← unit1_raw_valid b0 t hval]; simp
+          · rw [hbytes, units_cons, g2]; rfl
+          · rw [g3, hbytes]
+            simp only [ulen, List.map_cons, List.sum_cons]
+            rw [List.drop_drop]
+          · simp only [ulen, List.map_cons, List.sum_cons, hbytes] at g4 ⊢
+            simp only [List.length_drop] at g4
+            simp only [List.length_cons] at g4 ⊢
             omega
-        · simp only [List.length_append, List.length_cons, List.length_nil] at g8 ⊢
-          rcases g8 with h | h | h
-          · exact Or.inl (by omega)
-          · exact Or.inr (Or.inl h)
-          · exact Or.inr (Or.inr (by omega))
-        · refine ⟨k0 + k1, ?_⟩
-          rw [g9]
-          simp only [Rd.consume, h6, List.drop_drop]
+          · simp only [ulen, List.map_cons, List.sum_cons, List.length_cons] at g5 ⊢
+            omega
+          · rw [g6]
+            simp only [Rd.consume, h2, ulen, List.map_cons, List.sum_cons, hlk.2]
+            omega
+          · intro _
+            by_cases hne : us = []
+            · subst hne; simp only [List.length_cons, List.length_nil]; omega
+            · have := g7 hne
+              simp only [List.length_append, List.length_cons, List.length_nil] at this ⊢
+              omega
+          · simp only [List.length_append, List.length_cons, List.length_nil] at g8 ⊢
+            rcases g8 with h | h | h | h
+            · exact Or.inl (by omega)
+            · exact Or.inr (Or.inl h)
+            · exact Or.inr (Or.inr (Or.inl (by omega)))
+            · exact Or.inr (Or.inr (Or.inr h))
+          · refine ⟨k0 + k1, ?_⟩
+            rw [g9]
+            simp only [Rd.consume, h6, List.drop_drop]
+          · intro u hu
+            rcases List.mem_cons.mp hu with rfl | hu
+            · exact hval
+            · exact g10 u hu
 
 end VaxisModel.Lemmas.ParserTextU
